@@ -437,6 +437,9 @@ def judge_and_report(rep, pid, recs, violations, label):
     wanted = CLAUSES[pid]
     for i, r in enumerate(recs):
         m = r["_meta"]
+        if r.get("_malformed") and "ObsCands" in wanted:
+            rep.violation("align.ObsCands.malformed", {"record": {k: v for k, v in r.items() if k not in ("D", "cands", "_meta", "_malformed")},
+                                                       "malformed": r["_malformed"], "meta": m})
         rep.case(key=json.dumps([r["sizes"], r["D"], r["mode"], r["wantbackend"]]), nontrivial=sum(r["sizes"]) >= 2)
         bad = [v for v in verdicts.get(i, []) if v in wanted]
         for v in verdicts.get(i, []):
